@@ -48,7 +48,7 @@ def _run(call, mover, limit):
     return box, th.is_alive(), time.time() - t0
 
 
-def scenarios(kind):
+def scenarios(kind, quick=False):
     if kind == 'task':
         start, mid = 'TMGR_SCHEDULING', 'AGENT_EXECUTING'
         awaited = ['DONE', 'AGENT_EXECUTING', ['DONE', 'FAILED'], None, ['AGENT_EXECUTING', 'DONE']]
@@ -56,8 +56,13 @@ def scenarios(kind):
         start, mid = 'PMGR_LAUNCHING', 'PMGR_ACTIVE'
         awaited = ['DONE', 'PMGR_ACTIVE', ['DONE', 'FAILED'], None, ['PMGR_ACTIVE', 'CANCELED']]
     ends = ['DONE', 'FAILED', 'CANCELED', mid]
+    pairs = list(itertools.product(ends, repeat=2))
+    if quick:
+        # every awaited-state shape with six end-state pairs (all-done, both stay in the
+        # intermediate state, mixed)
+        pairs = [('DONE', 'DONE'), (mid, mid), ('DONE', mid), ('FAILED', 'CANCELED'), (mid, 'FAILED'), ('CANCELED', mid)]
     for aw in awaited:
-        for e1, e2 in itertools.product(ends, repeat=2):
+        for e1, e2 in pairs:
             yield aw, start, mid, (e1, e2)
 
 
@@ -68,7 +73,7 @@ def check_kind(rp, kind, quick=True):
     order = {'task': None}
     import radical.pilot.states as rps
     val = rps._task_state_value if kind == 'task' else rps._pilot_state_value
-    for aw, start, mid, ends in scenarios(kind):
+    for aw, start, mid, ends in scenarios(kind, quick):
         n += 1
         ents = [Ent('%s.%04d' % (kind, i), start) for i in range(2)]
         m = mk(rp, ents)
@@ -105,7 +110,6 @@ def check_kind(rp, kind, quick=True):
         ok = len(ret or []) == len(ends) and all(r == e or (early and r == mid) for r, e in zip(ret or [], ends))
         if not ok:
             probs.append('%s: reports states %r, the entities are in %r' % (what, ret, list(ends))); break
-        if quick and n >= 30: break
     return probs, n
 
 
@@ -117,11 +121,11 @@ def run_all(rp, tier='quick'):
         for x in p:
             viol.append(dict(id='wait_%ss' % kind, detail=x, input=dict(call='wait_%ss' % kind)))
     return dict(cases=n, violations=viol,
-                bound='%d scenarios: 5 awaited-state shapes x 16 end-state pairs of two entities, per manager (quick: first 30 each); '
+                bound='%d scenarios: 5 awaited-state shapes x 16 end-state pairs of two entities, per manager (quick: 6 end-state pairs per shape); '
                       'a second thread moves the entities; returns are timed with 0.1 s polls' % n)
 
 
-@builder('task_manager.py:TaskManager.wait_tasks', 'pilot_manager.py:PilotManager.wait_pilots')
+@builder('task_manager.py:TaskManager.wait_tasks', 'pilot_manager.py:PilotManager.wait_pilots', 'task_manager.py:TaskManager.wait_tasks#threshold')
 def wait_replay(case, rp):
     r = run_all(rp)
     for v in r['violations']:
